@@ -40,7 +40,8 @@ SHRINK_CONTENT = True
 
 TYPES = {
     "string": '"text"', "integer": "1", "float": "1.5", "boolean": "true", "datetime": "1979-05-27T07:32:00Z",
-    "array": '["a", "b"]', "mixed-array": '[1, "a"]', "empty-array": "[]", "inline-table": "{ a = 1 }",
+    "array": '["a", "b"]', "mixed-array": '[1, "a"]', "mixed-array-late": '["src/**", "doc/**", "po/**", "tests/**", true]',
+    "empty-array": "[]", "inline-table": "{ a = 1 }",
     "table": None, "array-of-tables": None,
 }
 KEYS = ["version", "annotations", "path", "precedence", "SPDX-FileCopyrightText", "SPDX-License-Identifier"]
@@ -132,6 +133,9 @@ def prelude_cases(tier, verif_seed):
         for typ in TYPES:
             files = _base_files() + [{"path": "REUSE.toml", "content": toml_variant(key, typ)}]
             variants = [{"hashseed": (n + i) % 8, "steps": [st]} for i, st in enumerate(_steps_for(None, cmds))]
+            if typ.startswith("mixed-array"):
+                # the members of an array end up in a set: which one a validator meets first follows the hash seed
+                variants += [{"hashseed": h, "steps": _steps_for(None, [["lint", "--json"]])} for h in range(8)]
             cases.append({"prop": PROP, "seed": 10_000 + n, "world": {"files": files}, "family": "toml-type",
                           "trigger": f"toml:{key}:{typ}", "config": ["REUSE.toml"], "must_be_2": False, "variants": variants})
             n += 1
